@@ -21,6 +21,7 @@ import (
 type workerEnv struct {
 	dir      string
 	sites    []string
+	mapSites []string
 	corpus   string
 	raceLog  string // GORACE log_path prefix; the file is <prefix>.<pid>
 	raceOff  int64
@@ -37,15 +38,22 @@ func workerFlags(fl *flag.FlagSet) {
 	fl.StringVar(&wenv.raceLog, "racelog", "", "GORACE log_path prefix")
 	fl.DurationVar(&wenv.timeout, "timeout", 30*time.Second, "per-job watchdog")
 	sitesFile := fl.String("sites", "", "site table written by the instrumenter")
+	knownFile := fl.String("known", "", "known findings (read-only)")
+	prop := fl.String("prop", "", "property served")
 	fl.Parse(os.Args[2:])
+	if *knownFile != "" && *prop != "" {
+		workerKnown = loadKnown(*knownFile, *prop)
+	}
 	if *sitesFile != "" {
 		b, err := os.ReadFile(*sitesFile)
 		must(err)
 		var st struct {
-			Sites []string `json:"sites"`
+			Sites    []string `json:"sites"`
+			MapSites []string `json:"map_sites"`
 		}
 		must(json.Unmarshal(b, &st))
 		wenv.sites = st.Sites
+		wenv.mapSites = st.MapSites
 		simrt.SetSiteNames(st.Sites)
 	}
 	wenv.selfPath, _ = os.Executable()
